@@ -4,7 +4,7 @@
 (* monitors C09 / C10 / C11 on the returned string (split into items at the *)
 (* inserted strings), conformance with Annotate.tla for token-built cases.  *)
 (***************************************************************************)
-EXTENDS Annotate, Json, IOUtils
+EXTENDS Annotate, Json, IOUtils, Hits
 
 Traces == JsonDeserialize(IOEnv.TRACE_FILE)
 NT == Len(Traces)
@@ -38,8 +38,9 @@ ForcedAlign(tr)  == tr.hasSrc => [y \in DOMAIN PlainPos(tr) |-> tr.target[PlainP
 C11Domain(tr) == tr.hasSrc /\ tr.src_wf /\ tr.src_tc = tr.plain
 HasTag(tr) == \E y \in DOMAIN tr.target : tr.target[y] = 60
 
-Clauses == {"C04.noraise", "C09.additive", "C10.enclosure", "C10.order", "C11.wellformed",
-            "C11.textcontent", "C11.wrapall"}
+ClauseSeq == <<"C04.noraise", "C09.additive", "C10.enclosure", "C10.order", "C11.wellformed", "C11.textcontent", "C11.wrapall">>
+Clauses == {ClauseSeq[ci] : ci \in DOMAIN ClauseSeq}
+ASSUME PrintT(<<"CLAUSES", ToJson(ClauseSeq)>>)
 Holds(cl, t) ==
   LET tr == T(t)  its == tr.items IN
   IF tr.raised # "" THEN cl # "C04.noraise"
@@ -89,7 +90,22 @@ Pick  == /\ tid = 0
 TNext == Pick \/ ((LoopStep \/ Finish) /\ UNCHANGED <<tid, bucket>>)
 TSpec == TInit /\ [][TNext]_tvars
 
-Judge == (tid # 0 /\ pc = "loop" /\ k = 1) => \A cl \in Clauses : Holds(cl, tid) \/ PrintT(<<"FAIL", tid, cl>>)
+(* non-vacuity of each clause on trace t (Hits.tla) *)
+Exercised(cl, t) ==
+  LET tr == T(t)  its == tr.items
+      nB == Cardinality({x \in DOMAIN its : its[x].k = "B"}) IN
+  IF cl = "C04.noraise" THEN TRUE
+  ELSE IF tr.raised # "" THEN FALSE
+  ELSE CASE cl = "C09.additive"  -> nB >= 1
+    [] cl = "C10.enclosure" -> /\ tr.hasSrc /\ ForcedAlign(tr) /\ (tr.mode = "unchecked" \/ ~HasTag(tr))
+                               /\ \E kk \in DOMAIN tr.anns : Judged(tr, kk)
+    [] cl = "C10.order"     -> nB >= 2
+    [] cl = "C11.wellformed"  -> C11Domain(tr) /\ tr.mode \in {"skip", "wrap"} /\ HasTag(tr) /\ tr.anns # <<>>
+    [] cl = "C11.textcontent" -> C11Domain(tr) /\ tr.mode \in {"skip", "wrap"} /\ tr.wf /\ HasTag(tr) /\ tr.anns # <<>>
+    [] cl = "C11.wrapall" -> C11Domain(tr) /\ tr.mode = "wrap" /\ HasTag(tr) /\ \E kk \in DOMAIN tr.anns : Judged(tr, kk)
+    [] OTHER -> FALSE
+Judge == (tid # 0 /\ pc = "loop" /\ k = 1) => (/\ \A cl \in Clauses : Holds(cl, tid) \/ PrintT(<<"FAIL", tid, cl>>)
+   /\ PrintT(<<"HIT", tid, Mask([ci \in DOMAIN ClauseSeq |-> Exercised(ClauseSeq[ci], tid)])>>))
 Conform == (tid # 0 /\ pc = "done" /\ T(tid).src # <<>> /\ T(tid).raised = "") =>
               (Merge(out, 1) = ObsItems(tid) \/ PrintT(<<"DRIFT", tid>>))
 Done == (tid # 0 /\ (pc = "done" \/ err # "none")) => PrintT(<<"DONE", tid>>)
